@@ -153,6 +153,27 @@ func main() {
 		fmt.Printf("(%s, %s, %s, %s, %s)", ex.LeanStr(w[1]), ex.LeanStr(body("Load")), ex.LeanStr(body("Add")), ex.LeanStr(body("MatchConfirmed")), ex.LeanStr(body("MatchUnconfirmed")))
 	}
 	fmt.Println("]")
+	// bloom.TxFilter: the plumbing between the message handlers and bloom.Filter
+	tfp := ex.Parse("elanet/bloom/txfilter.go")
+	var tfm []string
+	for _, m := range []string{"Load", "Add", "MatchConfirmed", "MatchUnconfirmed"} {
+		var parts []string
+		for _, b := range tfp.MustFunc("TxFilter." + m).Body.List {
+			parts = append(parts, tfp.Src(b))
+		}
+		tfm = append(tfm, m+": "+strings.Join(parts, "; "))
+	}
+	ex.DefStrList("txFilterMethods", tfm)
+	opf := ex.Parse("core/types/common/outpoint.go")
+	var opb []string
+	for _, m := range []string{"Serialize", "Bytes"} {
+		var parts []string
+		for _, b := range opf.MustFunc("OutPoint." + m).Body.List {
+			parts = append(parts, opf.Src(b))
+		}
+		opb = append(opb, m+": "+strings.Join(parts, "; "))
+	}
+	ex.DefStrList("outPointBytes", opb)
 	// State.IsDPOSTransaction: the unconditional case list; the tx-type predicates
 	st := ex.Parse("dpos/state/state.go")
 	var dposCases []string
